@@ -9,6 +9,8 @@ np.sort         1-D input of concrete length <= 3: ascending order statistics (m
 np.log10        log(x) / log(10).
 np.trapz / np.trapezoid (y, x) 1-D: sum_k (x[k+1] - x[k]) (y[k+1] + y[k]) / 2.
 np.delete       (a, i) / (a, i, axis=0) for an integer i: row i removed, requires 0 <= i < len(a).
+ndarray.max/min over a 1-D array of symbolic length: attained at a witness position, bounds the elements (instances at
+                both ends).
 np.argpartition (a, kth) 1-D, concrete kth: requires 0 <= kth < len(a) (numpy raises ValueError otherwise);
                 returns a permutation p of range(len(a)) with a[p[t]] <= a[p[kth]] for t < kth and
                 a[p[kth]] <= a[p[u]] for u > kth.  Relational contract: p is a fresh uninterpreted function; the
@@ -240,7 +242,40 @@ def np_argpartition(interp, a, kth, **kw):
     return A.new_arr((n,), fn, "int")
 
 
+_MM = {}
+
+
+def symbolic_minmax(a, which):
+    """ASSUMED contract of ndarray.max() / .min() over a 1-D array of symbolic length n >= 1: the result is an element
+    (at a witness position W in [0, n)) and bounds every element.  Both are functions of the array (lambda-lifted).
+    The universal part is assumed at the two end positions 0 and n-1 (instances); other instances: minmax_bound."""
+    from pyvc.sigma import VAR0, _placeholder, free_consts
+    n = a.shape[0]
+    rd = a.reader()
+    cur().require(sv.cmp(">=", n, 1), "max-of-empty-array")
+    m = z3.Int(sv.fresh_name("mmx"))
+    body = z3.simplify(sv.zr(norm(rd((SV(m),)))))
+    frees = free_consts(body, exclude=[m])
+    ph = [_placeholder(c.sort(), i) for i, c in enumerate(frees)]
+    canon = z3.substitute(body, (m, VAR0), *zip(frees, ph)) if frees else z3.substitute(body, (m, VAR0))
+    key = (which, canon.sexpr(), tuple(str(p.sort()) for p in ph))
+    if key not in _MM:
+        k = len(_MM)
+        _MM[key] = (z3.Function(f"{which.upper()}{k}", z3.IntSort(), *[p.sort() for p in ph], z3.RealSort()),
+                    z3.Function(f"ARG{which.upper()}{k}", z3.IntSort(), *[p.sort() for p in ph], z3.IntSort()))
+    vf, wf = _MM[key]
+    val = SV(vf(sv.znum(n), *frees))
+    W = SV(wf(sv.znum(n), *frees))
+    op = "<=" if which == "max" else ">="
+    st = cur()
+    st.assume(sv.and_(sv.cmp(">=", W, 0), sv.cmp("<", W, n), sv.cmp("==", val, rd((W,)))))
+    st.assume(sv.cmp(op, rd((0,)), val))
+    st.assume(sv.cmp(op, rd((A.simp(sv.sub(n, 1)),)), val))
+    return val
+
+
 def register(lib):
+    A.SYMBOLIC_MINMAX[0] = symbolic_minmax
     lib.np["linalg.eig"] = LibFunc("np.linalg.eig", np_eig)
     lib.np["sort"] = LibFunc("np.sort", np_sort)
     lib.np["log10"] = LibFunc("np.log10", np_log10)
